@@ -225,11 +225,12 @@ class TapeRecorder(object):
             self._playback_outputs.append(Output(interception_key, value))
             return
 
-        # Recording is discarded
-        if self._active_recording is None:
+        # Recording is discarded (keep hold of it, another thread may discard or finalize it at any point)
+        recording = self._active_recording
+        if recording is None:
             return
 
-        self._record_data(interception_key, value)
+        recording[interception_key] = value
 
     def enable_recording(self):
         """
@@ -835,6 +836,13 @@ class TapeRecorder(object):
         :type data_handler: playback.interception.input_interception.InputInterceptionDataHandler
         :return: Invocation result
         """
+        # Keep hold of the recording this interception belongs to, it may be discarded or finalized (by the
+        # intercepted function itself or by another thread) before the intercepted function returns
+        recording = self._active_recording
+        recording_parameters = self._active_recording_parameters
+        if recording is None or recording_parameters is None:
+            interception_key = None
+
         # Mark that this invocation is under interception context so any inner interception will be skipped
         with self._enter_interception_context():
             try:
@@ -842,7 +850,7 @@ class TapeRecorder(object):
             except Exception as ex:
                 if interception_key is not None:
                     # Record exception marking it as exception so we know to throw on playback
-                    self._record_data(interception_key, {'exception': ex})
+                    recording[interception_key] = {'exception': ex}
                 raise
 
         if interception_key is not None:
@@ -858,7 +866,7 @@ class TapeRecorder(object):
                 self.discard_recording()
                 return result
 
-            if self._active_recording_parameters.copy_data_on_intercepion:
+            if recording_parameters.copy_data_on_intercepion:
                 try:
                     recorded_result = pickle_copy(recorded_result)
                 except Exception as ex:
@@ -866,7 +874,7 @@ class TapeRecorder(object):
                         type(recorded_result), repr(ex)))
 
             # Record result
-            self._record_data(interception_key, {'value': recorded_result})
+            recording[interception_key] = {'value': recorded_result}
 
         return result
 
